@@ -13,6 +13,8 @@ H = os.path.join(os.path.dirname(os.path.abspath(__file__)), "harness")
 
 
 def nb(b):
+    if not b:
+        return "(@nil N)"          # typed: a shard may consist of this one term
     return "[" + ";".join(str(x) for x in b) + "]%N"
 
 
